@@ -102,6 +102,7 @@ func runAll(prog *bcl.Prog, out, log *capBuf) string {
 
 // checkDumpLoad is the direct oracle of C09 on one accepted program.
 func checkDumpLoad(res *Result, d *Driver, r *rand.Rand, name string, src []byte) {
+	var writeSizes string
 	verdict := guarded(opTimeout, func() string {
 		var out, log capBuf
 		prog, err := bcl.Parse(src, name, bcl.OptOutput(&out), bcl.OptLogger(&log), bcl.OptDisasm(true))
@@ -124,6 +125,11 @@ func checkDumpLoad(res *Result, d *Driver, r *rand.Rand, name string, src []byte
 			{"dataerr", func() io.Reader { return iotest.DataErrReader(bytes.NewReader(dump)) }},
 			{"random", func() io.Reader { return &randReader{r: rand.New(rand.NewSource(r.Int63())), b: dump} }},
 		}
+		sizes := dumpWriteSizes(prog, dump)
+		if sizes == "" {
+			return "FAIL a second Dump of the same program fails or writes other bytes"
+		}
+		writeSizes = sizes
 		exec0 := runAll(prog, &out, &log)
 		for _, rd := range readers {
 			var out2, log2 capBuf
@@ -168,6 +174,9 @@ func checkDumpLoad(res *Result, d *Driver, r *rand.Rand, name string, src []byte
 					Note: "LOAD: the parts recovered from a real dump differ between implementation and model"})
 			} else {
 				checkLoadPieces(res, d, r, unhx(dump), impl, "dump of "+trunc(string(src), 300))
+				if len(dump) < 120000 {
+					checkDumpWrites(res, d, writeSizes, dump, "dump of "+trunc(string(src), 300))
+				}
 			}
 		}
 	default:
@@ -190,6 +199,40 @@ func bitlen(n int) int {
 		n >>= 1
 	}
 	return k
+}
+
+// writeRecorder records the size of every Write it receives.
+type writeRecorder struct {
+	sizes []int
+	buf   bytes.Buffer
+}
+
+func (w *writeRecorder) Write(p []byte) (int, error) {
+	w.sizes = append(w.sizes, len(p))
+	return w.buf.Write(p)
+}
+
+// dumpWriteSizes: the sizes of the writes Dump hands to its destination, "" if Dump fails or
+// writes other bytes than dump.
+func dumpWriteSizes(prog *bcl.Prog, dump []byte) string {
+	var rec writeRecorder
+	if err := prog.Dump(&rec); err != nil || !bytes.Equal(rec.buf.Bytes(), dump) {
+		return ""
+	}
+	return intsCSV(rec.sizes)
+}
+
+// checkDumpWrites compares the sequence of writes Dump hands to its destination with the model
+// of Dump over bufio.Writer (op DUMPW): same sizes in the same order, same bytes.
+func checkDumpWrites(res *Result, d *Driver, sizes string, dumpHex string, what string) {
+	impl := "ok " + sizes + " same"
+	model := ask(d, "DUMPW "+dumpHex)
+	res.Eval(1)
+	res.Count("dumpwrites.model-vs-impl", 1)
+	if impl != model {
+		res.Fail(Failure{Kind: "model-diff", Op: trunc("DUMPW "+dumpHex, 2000), Input: what, Impl: trunc(impl, 1000), Model: trunc(model, 1000),
+			Note: "DUMPW: the writes Dump hands to its destination differ between implementation and model of bufio.Writer"})
+	}
 }
 
 // pieceReader hands over a fixed list of pieces, one per Read (or the first len(p) bytes of the
